@@ -13,6 +13,7 @@ import os
 from fractions import Fraction
 
 from mon import refbufr as R
+from mon import handover
 from mon.compare import td_of, jsonable, opsig
 from mon.gen import cases
 from mon.gen import failures
@@ -330,6 +331,9 @@ def fixpoint_foreign(ctx, enc, dec, name, m_bytes, rsubsets):
     except Exception:
         ctx.count('foreign_undecodable')
         return
+    if len(m_bytes) < 20000:
+        # E(render(D(b))) is a function of b: it gives the same bytes whatever else was done with the decoded object before
+        handover.on_message(ctx, m_bytes, spec, site='foreign', p=0.5)
     try:
         b1 = enc.process(render_json(m0)).serialized_bytes
     except Exception as e:
